@@ -311,7 +311,7 @@ impl Prop for C01 {
         run(c, o)
     }
     fn rule() -> &'static str {
-        "proptest: codec in {raw bytes, ProstCodec<Msg>} x BufferSettings (buffer_size in {1,2,5,16,100,4096,8192}, yield_threshold in {0,1,5,64,1024,32768}) x role x encoding in {identity,gzip,deflate,zstd} x per-response opt-out x 0..12 messages (sizes 0, 1-16, <=300, buffer_size+-2, yield_threshold+-6, <=70KiB; random/zero/repetitive) x source Pending pattern x chunking (sizes 0,1,2-5,<=100,<=9000 plus targeted cuts inside a chosen frame's 5-byte prefix / payload) x body Pending pattern x OK-trailers/none. Oracle: round trip through tonic's EncodeBody and Streaming equals the originals then None (sticky); encoder bytes identical for all-ready source and for another yield_threshold. Non-trivial: >=1 message and >=1 chunk boundary strictly inside a length prefix or inside a payload; distinct = distinct serialised case. Every DATA frame reaches the decoder as a two-segment Buf (bytes::buf::Chain) split at a generated position."
+        "proptest: codec in {raw bytes, ProstCodec<Msg>} x BufferSettings (buffer_size in {1,2,5,16,100,4096,8192}, yield_threshold in {0,1,5,64,1024,32768}) x role x encoding in {identity,gzip,deflate,zstd} x per-response opt-out x 0..12 messages (sizes 0, 1-16, <=300, buffer_size+-2, yield_threshold+-6, <=70KiB; random/zero/repetitive) x source Pending pattern x chunking (sizes 0,1,2-5,<=100,<=9000 plus targeted cuts inside a chosen frame's 5-byte prefix / payload) x body Pending pattern x OK-trailers/none. Oracle: round trip through tonic's EncodeBody and Streaming equals the originals then None (sticky); encoder bytes identical for all-ready source and for another yield_threshold. Non-trivial: >=1 message and >=1 chunk boundary strictly inside a length prefix or inside a payload; distinct = distinct serialised case. Every DATA frame reaches the decoder as a two-segment Buf (bytes::buf::Chain) split at a generated position. The raw codec serialises even-length messages through io::Write without reserving; half of the decoder bodies report is_end_stream exactly; an encoder that hands out more than 4 x budget + 64 frames counts as stuck."
     }
     fn assumptions() -> Vec<String> {
         vec![
